@@ -16,6 +16,13 @@ ASSUME = [
 
 def run(ctx):
     common.proofs(ctx, "theories/Props/C03.v", THEOREMS)
+    # application level: transactions with altered fields, foreign or re-used signatures, other chain ids
+    # are DELIVERED to the real node; only correctly signed ones may succeed (P_C03), and the model must agree
+    res = common.app_check(ctx, "C03", None, THEOREMS, codes=[11], pred="P_C03", extra_assume=ASSUME,
+                           nontrivial_rule="the invalid stream of the history generator signs transactions and then alters one field, flips a signature byte, signs with another account's key, signs for another chain id, or attaches a signature that verified earlier for another transaction of the same sender (see distribution: tamper-*, signed-by-other, wrong-chain, reused-signature)")
+    if res is None:
+        return
+    app_cov = json.load(open(os.path.join(V.VERIF, "evidence", "C03.json")))["coverage"]
     binp, out = V.go_build(ctx)
     if binp is None:
         V.violation(ctx, "harness-build", {"kind": "harness-does-not-build", "detail": out[-3000:]}, nofail=True)
@@ -74,8 +81,9 @@ def run(ctx):
         for k, v in s["vectors"].items():
             classes[k] = classes.get(k, 0) + v
     V.write_evidence(ctx, "proof", {
-        "traces_validated_against_impl": nvec,
-        "evaluations": nvec + muts,
+        "application_level": {k: app_cov.get(k) for k in ("traces_validated_against_impl", "blocks", "transactions", "succeeded", "failed", "distribution")},
+        "traces_validated_against_impl": nvec + (app_cov.get("traces_validated_against_impl") or 0),
+        "evaluations": nvec + muts + (app_cov.get("evaluations") or 0),
         "distinct_nontrivial": len([k for k in classes if classes[k] > 0 and ":" in k]),
         "rule": "test vectors: decoded transactions of all 8 types with boundary integers, odd-length addresses, long payloads, assorted chain ids; expected bytes from the real PreImageToSignTrxRLP, compared byte for byte with Preimage.v (vm_compute). probe: honestly signed transactions, each altered in one field / signature byte / sender / chain id and passed to the real VerifyTrxRLP. distinct_nontrivial counts the distinct boundary classes hit by the vectors",
         "vector_classes": classes, "alterations_tried": muts, "alterations_by_kind": bymut, "signed_transactions": signed,
